@@ -4,6 +4,7 @@ import (
 	"bytes"
 	"fmt"
 	"reflect"
+	"sync"
 	"testing"
 
 	"github.com/vapourismo/knx-go/knx/cemi"
@@ -19,6 +20,78 @@ type framePlan struct {
 	// Prev: a frame of the same shape decoded into the same destination first (a receive loop that reuses its
 	// variables); what Frame decodes to must not depend on it, and the value decoded from Prev must stay what it was
 	Prev *common.RFrame `json:"prev,omitempty"`
+	// Storm: further frames; each of them and Frame is encoded, decoded and re-encoded Reps times by its own
+	// goroutine, all at once (several sockets decode in one process at the same time): every result must be what
+	// the same call yields alone
+	Storm []*common.RFrame `json:"storm,omitempty"`
+	Reps  int              `json:"reps,omitempty"`
+}
+
+// c02Storm: the codec is a set of pure functions - concurrent callers with their own values and buffers do not
+// influence each other.
+func c02Storm(p framePlan) *common.Fail {
+	frames := append([]*common.RFrame{p.Frame}, p.Storm...)
+	type solo struct {
+		lib      knxnet.ServicePackable
+		ref, enc []byte
+		re       []byte // re-encoding of decode(ref); nil if ref is not accepted
+	}
+	var ss []solo
+	for _, f := range frames {
+		lib, ok := common.ToLib(f).(knxnet.ServicePackable)
+		if !ok {
+			continue
+		}
+		x := solo{lib: lib}
+		x.ref, _ = common.RefEncode(f)
+		x.enc = knxnet.AllocAndPack(lib)
+		var v knxnet.Service
+		if _, err := knxnet.Unpack(append([]byte{}, x.ref...), &v); err == nil {
+			if pk, ok := v.(knxnet.ServicePackable); ok {
+				x.re = knxnet.AllocAndPack(pk)
+			}
+		}
+		ss = append(ss, x)
+	}
+	fails := make([]*common.Fail, len(ss))
+	var wg sync.WaitGroup
+	start := make(chan struct{})
+	for i := range ss {
+		wg.Add(1)
+		go func(i int) {
+			defer wg.Done()
+			x := ss[i]
+			buf := make([]byte, len(x.ref))
+			<-start
+			fails[i] = common.Guard(func() *common.Fail {
+				for r := 0; r < p.Reps; r++ {
+					if enc := knxnet.AllocAndPack(x.lib); !bytes.Equal(enc, x.enc) {
+						return common.Failf("codec-interference", "round %d: encoding %s gives %x while %d other goroutines encode and decode their own frames; alone it gives %x", r, common.Show(x.lib), enc, len(ss)-1, x.enc)
+					}
+					copy(buf, x.ref)
+					var v knxnet.Service
+					_, err := knxnet.Unpack(buf, &v)
+					if (err == nil) != (x.re != nil) {
+						return common.Failf("codec-interference", "round %d: decoding %x gives error %v while %d other goroutines encode and decode their own frames; alone: accepted=%v", r, x.ref, err, len(ss)-1, x.re != nil)
+					}
+					if err == nil {
+						if re := knxnet.AllocAndPack(v.(knxnet.ServicePackable)); !bytes.Equal(re, x.re) {
+							return common.Failf("codec-interference", "round %d: %x decoded and re-encoded gives %x while %d other goroutines encode and decode their own frames; alone it gives %x", r, x.ref, re, len(ss)-1, x.re)
+						}
+					}
+				}
+				return nil
+			})
+		}(i)
+	}
+	close(start)
+	wg.Wait()
+	for _, f := range fails {
+		if f != nil {
+			return f
+		}
+	}
+	return nil
 }
 
 type bodyUnpacker interface {
@@ -125,6 +198,17 @@ func genFramePlan(rt *rapid.T, cells []cell) framePlan {
 	if rapid.IntRange(0, 2).Draw(rt, "used-destination") == 0 {
 		p.Prev = common.GenFrame(rt, c.kind, c.cemiKind)
 	}
+	if rapid.IntRange(0, 99).Draw(rt, "storm") == 0 {
+		for i := 0; i < rapid.IntRange(1, 7).Draw(rt, "storm-frames"); i++ {
+			// mostly the same cell (shared helpers, shared scratch space), sometimes any
+			c2 := c
+			if rapid.IntRange(0, 2).Draw(rt, "storm-other-cell") == 0 {
+				c2 = cells[rapid.IntRange(0, len(cells)-1).Draw(rt, "storm-cell")]
+			}
+			p.Storm = append(p.Storm, common.GenFrame(rt, c2.kind, c2.cemiKind))
+		}
+		p.Reps = rapid.SampledFrom([]int{50, 300}).Draw(rt, "storm-reps")
+	}
 	return p
 }
 
@@ -202,8 +286,26 @@ func c02Run(p framePlan) *common.Fail {
 			}
 		}
 	}
+	// the decoded value belongs to the caller: overwriting it does not change what the decoder yields next time
+	{
+		ref2, _ := common.RefEncode(p.Frame)
+		var a, b knxnet.Service
+		if _, err := knxnet.Unpack(append([]byte{}, ref2...), &a); err == nil {
+			want := common.Show(a)
+			common.Scribble(a)
+			if _, err := knxnet.Unpack(ref2, &b); err != nil || common.Show(b) != want {
+				return common.Failf("decoded-values-share-state", "%s/%s: after the value decoded from %x was overwritten by its owner, decoding the same bytes again gives %s (error %v)\n the first time %s",
+					p.Kind, p.CemiKind, ref2, common.Show(b), err, want)
+			}
+		}
+	}
 	if p.Prev != nil {
-		return c02Reuse(p)
+		if f := c02Reuse(p); f != nil {
+			return f
+		}
+	}
+	if len(p.Storm) > 0 {
+		return c02Storm(p)
 	}
 	return nil
 }
@@ -220,6 +322,9 @@ func TestC02(t *testing.T) {
 	common.Drive(t, rec, func(rt *rapid.T) framePlan {
 		p := genFramePlan(rt, cells)
 		rec.Class("cell:" + p.Kind + "/" + p.CemiKind)
+		if len(p.Storm) > 0 {
+			rec.ClassN("storm-codec-calls", int64(3*p.Reps*(1+len(p.Storm))))
+		}
 		ref, _ := common.RefEncode(p.Frame)
 		if frameNonTrivial(p.Frame) {
 			rec.NonTrivial(common.Hash64(ref))
